@@ -1,12 +1,12 @@
 #!/bin/sh
-# usage: tools/seed_process.sh <Cxx> [check ids...]   (round-2 seeds from /tmp/mut2-<Cxx>-out)
-p="$1"; shift
+# usage: tools/seed_process.sh <round> <Cxx> [check ids...]   (seeds from /tmp/mut<round>-<Cxx>-out)
+r="$1"; p="$2"; shift; shift
 checks="${*:-$p}"
-d=seeded/$p-r2
-mkdir -p $d && cp /tmp/mut2-$p-out/patch.diff /tmp/mut2-$p-out/demo.rs /tmp/mut2-$p-out/notes.md $d/ || exit 2
-echo "=== confirm $p"; tools/seed_confirm.sh $d 2>&1 | tail -4 | cut -c1-160
+d=seeded/$p-r$r
+mkdir -p $d && cp /tmp/mut$r-$p-out/patch.diff /tmp/mut$r-$p-out/demo.rs /tmp/mut$r-$p-out/notes.md $d/ || exit 2
+echo "=== confirm $p (round $r)"; tools/seed_confirm.sh $d 2>&1 | tail -2 | cut -c1-160
 for c in $checks; do
   echo "=== eval $p with check $c"
   tools/seed_eval.sh $d $c 2>&1 | grep -E "^VIOLATION|^KNOWN|\"case\"|\"implementation\"|\"failed_clauses\"|n_failing|n_mismatches|\"component\"" -A1 | grep -v "^--" | cut -c1-240 | head -14
 done
-git -C /repo worktree remove --force /tmp/mut2-$p 2>/dev/null
+git -C /repo worktree remove --force /tmp/mut$r-$p 2>/dev/null
